@@ -141,6 +141,16 @@ func mkExample[T any](name string, valid []string, nested, flat func(int) string
 	return &exampleParser{
 		name: name,
 		parse: func(fn, in string, po ...participle.ParseOption) (any, error) {
+			// the three entry points the property names take turns; the reader has a name of its own, which the filename
+			// the caller supplies overrides
+			switch len(in) % 3 {
+			case 1:
+				v, err := p.ParseBytes(fn, []byte(in), po...)
+				return v, err
+			case 2:
+				v, err := p.Parse(fn, namedReader{strings.NewReader(in), "reader-name.txt"}, po...)
+				return v, err
+			}
 			v, err := p.ParseString(fn, in, po...)
 			return v, err
 		},
